@@ -48,6 +48,8 @@ import (
 //   4 regression: failing slow store, producer goroutine must end    (4 nblocks w failat)    obs (1)
 //   5 merge end to end repeated under different GOMAXPROCS / yields  (5 base (layer ...) reps seed)  obs (0)
 //   6 regression: store Get fails from the k-th call during a merge  (6 nrows k)             obs (1)
+//   8 diff / merge with REAL progress ticks over a slow store, consumer loops of cmd/wrgl, watchdog on
+//     Stop / Error / Close    (8 mode nrows periodUs slowGetUs gapUs reps)  mode 0 diff, 1 merge    obs (0)
 //   7 as 0, but the CSV has varying-length cells, the key is the SECOND column (1..40 bytes), the
 //     workers are released together right after SaveBlock (before indexing), and every block index
 //     is recomputed with objects.IndexBlock from the decoded rows and compared
@@ -65,6 +67,7 @@ type c16Store struct {
 	yieldPct    int
 	sleepUs     int
 	slowUs      int
+	slowGetUs   int
 	failKeys    map[string]bool
 	failSetFrom int
 	failGetFrom int
@@ -108,6 +111,9 @@ func (s *c16Store) yield() {
 
 func (s *c16Store) Get(k []byte) ([]byte, error) {
 	s.yield()
+	if s.slowGetUs > 0 {
+		time.Sleep(time.Duration(s.slowGetUs) * time.Microsecond)
+	}
 	s.mu.Lock()
 	defer s.mu.Unlock()
 	s.nget++
@@ -767,6 +773,8 @@ func runC16(ctx *Ctx, c *xt.T) (*xt.T, Verdict) {
 		return c16RunMerge(ctx, c)
 	case 6:
 		return c16RunMergeFail(ctx, c)
+	case 8:
+		return c16RunProgress(ctx, c)
 	}
 	return xt.N(xt.L(9)), Fail("bad-case", "unknown kind %d", c.Kids[0].N)
 }
